@@ -23,8 +23,8 @@ ASSUMPTIONS = ["max/min of a vector without non-None values is not specified and
 D1, D2, D3 = date(2020, 1, 1), date(2021, 6, 15), date(1999, 12, 31)
 BASE = {
     "bool": ([True, False, True, True], [False, True, True, False]),
-    "int": ([1, -2, 3, 4], [2, 5, -1, 3]),
-    "float": ([0.5, -1.5, 2.0, 4.25], [2.0, 0.25, -1.0, 8.0]),
+    "int": ([0, -2, 3, 4], [2, 5, -1, 3]),
+    "float": ([0.0, -1.5, 2.0, 4.25], [2.0, 0.25, -1.0, 8.0]),
     "complex": ([1j, 2 + 0j, 1 + 1j, -1j], [2 + 0j, 1j, 3 + 0j, 1 + 2j]),
     "str": (["a", "B", "", "zz"], ["x", "", "y", "a"]),
     "date": ([D1, D2, D3, D1], [D2, D2, D1, D3]),
